@@ -89,7 +89,30 @@ pub fn gen_state(r: &mut Rng, o: &GenOpts) -> PushState {
         s.name_stack.push(gen_name(r));
     }
     for _ in 0..depth(r, rich) {
-        s.code_stack.push(gen_item(r, o.item_depth, o.instrs));
+        // CODE items are often related to the ones below them, as programs produce them (DUP, CAR, LIST, QUOTE):
+        // a point of an earlier item, or a list that contains an earlier item
+        let related = if s.code_stack.size() > 0 && r.chance(2, 5) {
+            let k = r.below(s.code_stack.size() as u64) as usize;
+            s.code_stack.get(k).cloned()
+        } else {
+            None
+        };
+        let it = match related {
+            Some(base) => {
+                if r.chance(1, 2) {
+                    let n = pushr::push::item::Item::size(&base) as u64;
+                    pushr::push::item::Item::traverse(&base, r.below(n) as usize).unwrap_or(base)
+                } else {
+                    let mut v = vec![gen_item(r, 1, o.instrs), base];
+                    if r.chance(1, 2) {
+                        v.reverse();
+                    }
+                    pushr::push::item::Item::list(v)
+                }
+            }
+            None => gen_item(r, o.item_depth, o.instrs),
+        };
+        s.code_stack.push(it);
     }
     for _ in 0..depth(r, rich) {
         s.exec_stack.push(gen_item(r, o.item_depth, o.instrs));
@@ -116,7 +139,44 @@ pub fn gen_state(r: &mut Rng, o: &GenOpts) -> PushState {
         s.output_stack.push(PushMessage::new(IntVector::new(gen_ivec(r, 3)), BoolVector::new(gen_bvec(r, 4))));
     }
     for _ in 0..r.below(4) {
-        s.graph_stack.push(gen_graph(r));
+        // a later snapshot is often derived from the one below it, as GRAPH.DUP followed by edits produces
+        // them: same node ids, edges added, removed and put back (so that incoming lists differ in order)
+        let derived = if s.graph_stack.size() > 0 && r.chance(1, 2) { s.graph_stack.get(0).cloned() } else { None };
+        match derived {
+            Some(mut g) => {
+                let mut ids: Vec<usize> = g.nodes.keys().cloned().collect();
+                ids.sort();
+                if !ids.is_empty() {
+                    for _ in 0..r.below(4) {
+                        let o = *r.pick(&ids);
+                        let d = *r.pick(&ids);
+                        match r.below(4) {
+                            0 => {
+                                g.remove_edge(o, d);
+                            }
+                            1 => {
+                                // take an edge out, add another one to the same destination, put it back
+                                let w = g.get_weight(&o, &d);
+                                g.remove_edge(o, d);
+                                let o2 = *r.pick(&ids);
+                                g.add_edge(o2, d, 0.5);
+                                if let Some(w) = w {
+                                    g.add_edge(o, d, w);
+                                }
+                            }
+                            2 => {
+                                g.set_state(&o, r.range(-1, 3) as i32);
+                            }
+                            _ => {
+                                g.add_edge(o, d, gen_float(r));
+                            }
+                        }
+                    }
+                }
+                s.graph_stack.push(g);
+            }
+            None => s.graph_stack.push(gen_graph(r)),
+        }
     }
     for _ in 0..r.below(4) {
         let k = gen_name(r);
